@@ -22,9 +22,10 @@ import (
 )
 
 type State struct {
-	Lref []string   `json:"lref"`
-	Tref [][]string `json:"tref"`
-	Cexc []string   `json:"cexc"`
+	Lref   []string   `json:"lref"`
+	Tref   [][]string `json:"tref"`
+	Cexc   []string   `json:"cexc"`
+	Merged []string   `json:"merged"`
 }
 type Vec struct {
 	Via     string   `json:"via"`
@@ -50,7 +51,11 @@ func has(xs []string, x string) bool {
 	return false
 }
 
-func sortedKey(xs []string) string { s := append([]string(nil), xs...); sort.Strings(s); return strings.Join(s, ",") }
+func sortedKey(xs []string) string {
+	s := append([]string(nil), xs...)
+	sort.Strings(s)
+	return strings.Join(s, ",")
+}
 
 func one(v Vec, kind string, cli bool) string {
 	dir := hx.Scratch("rm")
@@ -294,8 +299,8 @@ func one(v Vec, kind string, cli bool) string {
 	return ""
 }
 
-// after a MergeAll without fetch nothing comes back: the view is the one right after the removal
-func mergedView(v Vec) []string { return v.After.Cexc }
+// after a MergeAll without fetch the entities that were only remote-tracked exist locally; the removed one does not come back
+func mergedView(v Vec) []string { return v.After.Merged }
 
 func foreign(repo repository.ClockedRepo, ents map[string]*ent, ns string) string {
 	refs, _ := repo.ListRefs("refs/")
